@@ -58,6 +58,13 @@ func checkC02Cert(e *core.Entity, dec *decoded, x509Safe bool) *core.Failure {
 	if c.SPKIAlg.OID == xref.OIDRSA && !c.SPKIAlg.ParamIsNull() {
 		return core.Failf("C02/spki-parameters", "%s: rsaEncryption without NULL", who)
 	}
+	// the public key is a well-formed key of its algorithm (EC: a point on the named curve) and the one of the stored private key
+	if _, err := xref.ParseSPKI(c.SPKIAlg, c.SPKIBits); err != nil {
+		return core.Failf("C02/spki-unreadable", "%s: subjectPublicKey is not a valid %s key: %v", who, c.SPKIAlg.OID, err)
+	}
+	if dec.Key != nil && !bytes.Equal(dec.Key.PublicBits(), c.SPKIBits) {
+		return core.Failf("C02/spki-not-this-key", "%s: subjectPublicKey is not the public key of the private key stored next to the certificate", who)
+	}
 	// the independent decoder reads the configured fields back
 	for _, u := range []*core.Failure{checkUID("issuerUniqueID", c.HasIssuerUID, c.IssuerUID, c.IssuerUIDUnused, e.IssuerUID),
 		checkUID("subjectUniqueID", c.HasSubjectUID, c.SubjectUID, c.SubjectUIDUnused, e.SubjectUID)} {
@@ -66,8 +73,13 @@ func checkC02Cert(e *core.Entity, dec *decoded, x509Safe bool) *core.Failure {
 			return u
 		}
 	}
-	if e.Serial != nil && c.Serial.Cmp(big.NewInt(*e.Serial)) != 0 {
+	if e.SerialRaw == "" && e.Serial != nil && c.Serial.Cmp(big.NewInt(*e.Serial)) != 0 {
 		return core.Failf("C02/readback-serial", "%s: serial %v, configured %d", who, c.Serial, *e.Serial)
+	}
+	if e.SerialRaw != "" {
+		if want, ok := new(big.Int).SetString(e.SerialRaw, 10); ok && c.Serial.Cmp(want) != 0 {
+			return core.Failf("C02/readback-serial", "%s: serial %v, configured %s", who, c.Serial, e.SerialRaw)
+		}
 	}
 	// decode -> re-encode through gopki reproduces the bytes
 	pc, err := cert.ReadPem(core.PemBlock("CERTIFICATE", c.Raw))
@@ -93,7 +105,7 @@ func checkC02Cert(e *core.Entity, dec *decoded, x509Safe bool) *core.Failure {
 		if xc.SerialNumber.Cmp(c.Serial) != 0 || xc.Version != 3 {
 			return core.Failf("C02/x509-disagrees", "%s: crypto/x509 reads serial %v version %d", who, xc.SerialNumber, xc.Version)
 		}
-		if e.Serial != nil && xc.SerialNumber.Cmp(big.NewInt(*e.Serial)) != 0 {
+		if e.SerialRaw == "" && e.Serial != nil && xc.SerialNumber.Cmp(big.NewInt(*e.Serial)) != 0 {
 			return core.Failf("C02/x509-serial", "%s: serial read back %v, configured %d", who, xc.SerialNumber, *e.Serial)
 		}
 		for _, p := range []struct {
@@ -131,11 +143,20 @@ func checkC02(c c02Case) *core.Failure {
 	if res.Panic != "" {
 		return core.Failf("C02/panic", "gopki panicked: %s", res.Panic)
 	}
-	if !res.OK() || res.Generated != len(c.W.Ents) {
+	hugeSerial := false
+	for i := range c.W.Ents {
+		if c.W.Ents[i].SerialRaw != "" {
+			hugeSerial = true
+		}
+	}
+	if !hugeSerial && (!res.OK() || res.Generated != len(c.W.Ents)) {
 		return core.Failf("C02/run-failed", "%s\n%v", res.String(), c.W.Texts())
 	}
 	for i := range c.W.Ents {
 		e := &c.W.Ents[i]
+		if hugeSerial && (d.Files[core.PemPath(e.File)] == nil || core.ParseArtifact(d.Files[core.PemPath(e.File)].Data).CertDER == nil) {
+			continue // a serial beyond int64 may be refused; if a certificate is written it must obey every rule
+		}
 		dec, err := readEntity(d, e)
 		if err != nil || dec.Cert == nil {
 			return core.Failf("C02/not-well-formed", "%s: the certificate is not a single well-formed strict-DER X.509 structure: %v\n%s", e.EffAlias(), err, string(e.Render()))
@@ -210,6 +231,11 @@ func genC02(t *rapid.T) c02Case {
 		case 1:
 			v := rapid.Int64Range(1, 1<<63-1).Draw(t, l+"-serialr")
 			e.Serial = &v
+		case 2:
+			if i == 0 && rapid.IntRange(0, 5).Draw(t, l+"-hugeserial") == 0 {
+				// beyond int64: may be refused, but must never yield a negative or different serial
+				e.SerialRaw = rapid.SampledFrom([]string{"9223372036854775808", "18446744073709551615", "18446744073709551616", "13835058055282163712", "340282366920938463463374607431768211455"}).Draw(t, l+"-hugev")
+			}
 		}
 		if rapid.IntRange(0, 2).Draw(t, l+"-iuid") == 0 {
 			e.IssuerUID = core.Bin(genRawBytes(t, l+"-iuidb", 300))
